@@ -649,17 +649,50 @@ class Lean:
         return len(self.lines) - 1
 
     def run(self):
-        text = "pi %s\n" % F(math.pi) + "\n".join(self.lines) + "\n"
+        text = "pi %s\nmode %s\n" % (F(math.pi), probe_mode()) + "\n".join(self.lines) + "\n"
         out = vlib.lean_run(DRIVER, text)
-        if len(out) != len(self.lines) + 1:
-            raise vlib.Infra("TankDriver returned %d lines for %d requests" % (len(out), len(self.lines) + 1))
-        self.out = out[1:]
+        if len(out) != len(self.lines) + 2:
+            raise vlib.Infra("TankDriver returned %d lines for %d requests" % (len(out), len(self.lines) + 2))
+        self.out = out[2:]
         bad = [i for i, l in enumerate(self.out) if l == "bad-op"]
         if bad:
             raise vlib.Infra("TankDriver: bad-op for request %r" % self.lines[bad[0]][:300])
 
     def ans(self, i):
         return self.out[i]
+
+
+_MODE = None
+
+
+def probe_mode():
+    """which curve lookup the implementation under test uses: 'clamp' (np.interp clamps outside the volume curve) or
+    'extrap' (repair fixes/C06-volcurve-extrapolate: the end segments are continued).  Probed on the real Tank.get_volume and
+    update_tank_heads; the Lean model has both (Tank.extrap) and is told which one to be diffed against."""
+    global _MODE
+    if _MODE is None:
+        wntr = vlib.import_wntr()
+        wn, tank = make_real_tank(wntr, dict(elev=0.0, min=0.0, max=1.0, diam=1.0, curve=[(0.0, 0.0), (1.0, 10.0)]))
+        gv = float(tank.get_volume(2.0))
+        up = real_upd(wntr, wn, tank, dict(prev=0.5, head=0.5, demand=1.0, dt=10.0))  # V 5 -> 15
+        if gv == 10.0 and up == 1.0:
+            _MODE = "clamp"
+        elif gv == 20.0 and up == 1.5:
+            _MODE = "extrap"
+        else:
+            raise vlib.BrokenTie("curve lookup is neither np.interp clamping nor end-segment extrapolation: get_volume(2.0)=%r on curve (0,0),(1,10); "
+                                 "update_tank_heads from level 0.5 with 10 m3 inflow gives level %r" % (gv, up))
+    return _MODE
+
+
+def curve_lookup(x, xp, fp):
+    """the implementation's curve lookup in floats (mode-aware), for tolerance decisions only"""
+    import numpy as np
+
+    y = float(np.interp(x, xp, fp))
+    if probe_mode() == "extrap" and len(xp) > 1:
+        y += min(x - xp[0], 0.0) * (fp[1] - fp[0]) / (xp[1] - xp[0]) + max(x - xp[-1], 0.0) * (fp[-1] - fp[-2]) / (xp[-1] - xp[-2])
+    return y
 
 
 def tank_line(tid, p):
@@ -750,7 +783,7 @@ def float_quotient(r, p):
         return None
     off = p["elev"] if r["attr"] == "head" else 0.0
     arr = np.array(p["curve"])
-    return float((np.interp(cur - off, arr[:, 0], arr[:, 1]) - np.interp(r["thr"] - off, arr[:, 0], arr[:, 1])) / r["demand"])
+    return float((curve_lookup(cur - off, arr[:, 0], arr[:, 1]) - curve_lookup(r["thr"] - off, arr[:, 0], arr[:, 1])) / r["demand"])
 
 
 def near_half(x):
